@@ -50,6 +50,7 @@ type Exec struct {
 	inlined  map[string]bool
 	modular  map[string]bool
 	havocked map[string]bool
+	modelled map[string]bool
 	paths    int
 	maxPaths int
 	target   *ssa.Function
@@ -62,6 +63,7 @@ type Exec struct {
 	pathEnds int
 	verbose  bool
 	witness  map[string]ast.Expr
+	errGlobals map[string]int
 }
 
 func (x *Exec) note(f string, a ...any) { x.notes[fmt.Sprintf(f, a...)] = true }
@@ -101,6 +103,11 @@ func (x *Exec) typeTag(t types.Type) *Term {
 
 func (x *Exec) ghost(pkg, name string) *ghostInfo {
 	if g, ok := x.ghosts[pkg+"."+name]; ok {
+		return g
+	}
+	if pkg == "time" && name == "lastNow" {
+		g := &ghostInfo{ptr: x.lastNowPtr()}
+		x.ghosts["time.lastNow"] = g
 		return g
 	}
 	pc := x.contracts[pkg]
@@ -283,6 +290,10 @@ func (x *Exec) wf(st *State, v SV) {
 	}
 	lim := mkBVu(1<<40, 64)
 	for i := 0; i < len(ls); i++ {
+		if ls[i].kind == "tag" && ls[i].sort.bv == 32 && i+1 < len(ls) && !v.l[i].isConst() {
+			// canonical nil interface: no dynamic type => no payload
+			st.assume(Implies(Eq(v.l[i], mkBV(0, 32)), Eq(v.l[i+1], mkBV(0, 64))))
+		}
 		if ls[i].kind == "len" && ls[i].sort == I64 {
 			ln, cp, off := v.l[i], v.l[i+1], v.l[i-1]
 			if ln.isConst() && cp.isConst() && off.isConst() {
@@ -592,6 +603,7 @@ func (x *Exec) finish(st *State, fr *Frame, results []SV, pos token.Pos) {
 	}
 	bindResults(vars, fr.fn.Signature, results)
 	env := &Env{x: x, st: st, oldSt: st.entry, vars: vars, pkg: fr.fn.Pkg.Pkg}
+	x.applyGsets(st, env, c)
 	for i, en := range c.ensures {
 		t, e := env.EvalBool(en.expr)
 		if e != nil {
@@ -628,6 +640,8 @@ type permitted struct {
 	rng   bool  // only indices [off, off+n) of a slice backing
 	off   *Term
 	n     *Term
+	ent   bool
+	idx   *Term
 }
 
 // modLoc is one evaluated modifies designator.
@@ -636,16 +650,26 @@ type modLoc struct {
 	rng bool // s[:] designator: only [off, off+n) of the backing array
 	off *Term
 	n   *Term
+	ent bool // single entry of a ghost map
+	idx *Term
 }
 
 func (x *Exec) modTargets(env *Env, c *FuncContract) []permitted {
 	var out []permitted
+	for _, g := range c.gsets {
+		for _, ml := range x.modLocs(env, g.exprs[0]) {
+			li := resolveLoc(ml.ptr)
+			for k := li.lo; k < li.hi; k++ {
+				out = append(out, permitted{key: li.key(k), base: ml.ptr.l[0], ent: ml.ent, idx: ml.idx})
+			}
+		}
+	}
 	for _, m := range c.modifies {
 		for _, e := range m.exprs {
 			for _, ml := range x.modLocs(env, e) {
 				li := resolveLoc(ml.ptr)
 				for k := li.lo; k < li.hi; k++ {
-					out = append(out, permitted{key: li.key(k), base: ml.ptr.l[0], rng: ml.rng, off: ml.off, n: ml.n})
+					out = append(out, permitted{key: li.key(k), base: ml.ptr.l[0], rng: ml.rng, off: ml.off, n: ml.n, ent: ml.ent, idx: ml.idx})
 				}
 			}
 		}
@@ -663,6 +687,12 @@ func (x *Exec) modLocs(env *Env, e ast.Expr) []modLoc {
 	case *ast.StarExpr:
 		v := oe.eval(n.X, nil)
 		return []modLoc{{ptr: v}}
+	case *ast.CallExpr:
+		if id, ok := n.Fun.(*ast.Ident); ok && id.Name == "arr" && len(n.Args) == 1 {
+			// arr(s): the whole backing array of slice s (coarse, quantifier-free)
+			s := oe.eval(n.Args[0], nil)
+			return []modLoc{{ptr: sliceElemAddr(s, mkBV(0, 64))}}
+		}
 	case *ast.SliceExpr: // s[:] : the elements of s
 		s := oe.eval(n, nil)
 		p := sliceElemAddr(s, mkBV(0, 64))
@@ -672,11 +702,49 @@ func (x *Exec) modLocs(env *Env, e ast.Expr) []modLoc {
 		}
 		return []modLoc{{ptr: p}}
 	}
-	return []modLoc{{ptr: oe.evalAddr(e)}}
+	p := oe.evalAddr(e)
+	if ix, ok := e.(*ast.IndexExpr); ok && p.p != nil && p.p.idxSort != nil && len(p.p.steps) == 1 {
+		_ = ix
+		return []modLoc{{ptr: p, ent: true, idx: p.p.steps[0].idx}}
+	}
+	return []modLoc{{ptr: p}}
+}
+
+// applyGsets performs the ghost updates of a contract (lhs evaluated in the old state, rhs in the new).
+func (x *Exec) applyGsets(st *State, env *Env, c *FuncContract) {
+	for _, g := range c.gsets {
+		var v SV
+		var target SV
+		func() {
+			defer func() {
+				if r := recover(); r != nil {
+					if ee, ok := r.(evalErr); ok {
+						panic(abortErr{fmt.Sprintf("%s:%d: gset %s: %s", g.file, g.line, g.text, ee.msg)})
+					}
+					panic(r)
+				}
+			}()
+			mls := x.modLocs(env, g.exprs[0])
+			target = mls[0].ptr
+			v = env.eval(g.expr, derefType(target.ty))
+		}()
+		st.store(x, target, v)
+	}
 }
 
 // havocMod havocs one modifies designator in st.
 func (x *Exec) havocMod(st *State, ml modLoc, hint string) {
+	if ml.ent {
+		li := resolveLoc(ml.ptr)
+		base := ml.ptr.l[0]
+		for k := li.lo; k < li.hi; k++ {
+			s := li.regionSort(k)
+			r := st.region(li.key(k), s)
+			old := Select(r, base)
+			st.setRegion(li.key(k), Store(r, base, Store(old, ml.idx, mkVar(freshName("hv_"+hint+li.leaves[k].path), s.elem.elem))))
+		}
+		return
+	}
 	if !ml.rng {
 		st.havocLoc(x, ml.ptr, hint)
 		return
@@ -714,18 +782,27 @@ func (x *Exec) frameCheck(st *State, fr *Frame, env *Env, c *FuncContract, pos t
 		}
 		conds := []*Term{pre}
 		isBacking := strings.HasPrefix(key, "[]") && now.sort.elem.idx == I64
+		isGhostMap := strings.HasPrefix(key, "GH:") && now.sort.elem.idx != nil
+		var gj *Term
+		if isGhostMap {
+			gj = mkVar("frame!k"+now.sort.elem.idx.s, now.sort.elem.idx)
+		}
 		for _, p := range perm {
 			if p.key != key {
 				continue
 			}
-			if p.rng && isBacking {
+			if p.ent && isGhostMap {
+				conds = append(conds, Neq(gj, p.idx))
+			} else if p.rng && isBacking {
 				inside := And(BvCmp("bvule", p.off, jj), BvCmp("bvult", jj, BvBin("bvadd", p.off, p.n)))
 				conds = append(conds, Not(And(Eq(r, p.base), inside)))
 			} else {
 				conds = append(conds, Neq(r, p.base))
 			}
 		}
-		if isBacking {
+		if isGhostMap {
+			goals = append(goals, Implies(And(conds...), Eq(Select(Select(now, r), gj), Select(Select(init, r), gj))))
+		} else if isBacking {
 			goals = append(goals, Implies(And(conds...), Eq(Select(Select(now, r), jj), Select(Select(init, r), jj))))
 		} else {
 			goals = append(goals, Implies(And(conds...), Eq(Select(now, r), Select(init, r))))
